@@ -1281,22 +1281,38 @@ def outer(a, b):
     return _wrap(_np.outer(a, b))
 
 
-def minimum(a, b):
+def _into(out, r):
+    """ufunc `out=`: the result is written into `out` (cast to its dtype) and `out` is returned"""
+    if out is None:
+        return r
+    if isinstance(out, SArr):
+        r = _A(r)
+        if len(r) == 1 and len(out) != 1:
+            r = SArr(list(r.items) * len(out), r.dtype)
+        out[:] = r.astype(out.dtype) if r.dtype != out.dtype else r
+        return out
+    if _sym(r):
+        raise Inconclusive("ufunc out= into a real array with symbolic data")
+    out[...] = r
+    return out
+
+
+def minimum(a, b, out=None):
     if _sym(a) or _sym(b):
         c = a < b
         if isinstance(c, SArr):
-            return where(c, a, b)
-        return ite(c, a, b) if isinstance(c, SBool) else (a if c else b)
-    return _wrap(_np.minimum(a, b))
+            return _into(out, where(c, a, b))
+        return _into(out, ite(c, a, b) if isinstance(c, SBool) else (a if c else b))
+    return _wrap(_np.minimum(a, b)) if out is None else _into(out, _np.minimum(a, b))
 
 
-def maximum(a, b):
+def maximum(a, b, out=None):
     if _sym(a) or _sym(b):
         c = a > b
         if isinstance(c, SArr):
-            return where(c, a, b)
-        return ite(c, a, b) if isinstance(c, SBool) else (a if c else b)
-    return _wrap(_np.maximum(a, b))
+            return _into(out, where(c, a, b))
+        return _into(out, ite(c, a, b) if isinstance(c, SBool) else (a if c else b))
+    return _wrap(_np.maximum(a, b)) if out is None else _into(out, _np.maximum(a, b))
 
 
 def linspace(lo, hi, num=50, endpoint=True, retstep=False, dtype=None, axis=0):
